@@ -327,7 +327,7 @@ func (fr *Frame) zeroRange(t types.Type, base, count string) {
 		old := fr.vc.arr(fr.st, l)
 		nw := fr.vc.fresh(l.Key, "(Array Int "+l.Sort+")")
 		zl := zeroLeaf(l)
-		fr.vc.addAxiom(l.Key, fmt.Sprintf("(forall ((a Int)) (! (= (select %s a) (ite (and (<= %s a) (< a %s)) %s (select %s a))) :pattern ((select %s a))))",
+		fr.vc.addAxiomArr(l.Key, nw, old, fmt.Sprintf("(forall ((a Int)) (! (= (select %s a) (ite (and (<= %s a) (< a %s)) %s (select %s a))) :pattern ((select %s a))))",
 			nw, base, hi, zl, old, nw), func(idx string) (string, []string) {
 			return eq(sel(nw, idx), ite(and(le(base, idx), lt(idx, hi)), zl, sel(old, idx))), nil
 		})
@@ -392,7 +392,7 @@ func (fr *Frame) copyRange(t types.Type, dst, src, count string) {
 		rememberLeaf(l)
 		old := fr.vc.arr(fr.st, l)
 		nw := fr.vc.fresh(l.Key, "(Array Int "+l.Sort+")")
-		fr.vc.addAxiom(l.Key, fmt.Sprintf("(forall ((a Int)) (! (= (select %s a) (ite (and (<= %s a) (< a %s)) (select %s (+ %s (- a %s))) (select %s a))) :pattern ((select %s a))))",
+		fr.vc.addAxiomArr(l.Key, nw, old, fmt.Sprintf("(forall ((a Int)) (! (= (select %s a) (ite (and (<= %s a) (< a %s)) (select %s (+ %s (- a %s))) (select %s a))) :pattern ((select %s a))))",
 			nw, dst, hi, old, src, dst, old, nw), func(idx string) (string, []string) {
 			from := add(src, sub(idx, dst))
 			return eq(sel(nw, idx), ite(and(le(dst, idx), lt(idx, hi)), sel(old, from), sel(old, idx))), []string{from}
@@ -550,6 +550,9 @@ func (fr *Frame) execRegion(blocks map[*ssa.BasicBlock]bool, entry *ssa.BasicBlo
 	order := fr.vc.w.rpoOf(fr.fn)
 	inLoopDone := map[*ssa.BasicBlock]bool{}
 	route := func(from *ssa.BasicBlock, e *Edge, to *ssa.BasicBlock) {
+		if e.cond == tFalse {
+			return // statically infeasible
+		}
 		if loop != nil && to == loop.head {
 			res.latches = append(res.latches, e)
 			return
@@ -977,7 +980,7 @@ func (fr *Frame) execLoopCut(l *Loop, in []*Edge) map[*ssa.BasicBlock][]*Edge {
 		if ex, ok := frames[k]; ok {
 			nw, old, wm := head.st.heap[k], vc.arr(pre, leafByKey[k]), pre.wm
 			exc := ex
-			vc.addAxiom(k, frameAxiom(nw, old, wm, exc), func(idx string) (string, []string) {
+			vc.addAxiomArr(k, nw, old, frameAxiom(nw, old, wm, exc), func(idx string) (string, []string) {
 				cs := []string{lt(idx, wm)}
 				for _, e := range exc {
 					cs = append(cs, neq(idx, e))
@@ -998,7 +1001,7 @@ func (fr *Frame) execLoopCut(l *Loop, in []*Edge) map[*ssa.BasicBlock][]*Edge {
 			}
 			nw, old, wm := head.st.heap[k], vc.arr(pre, leafByKey[k]), pre.wm
 			inside := locsCover(loopLocs, k)
-			vc.addAxiom(k, fmt.Sprintf("(forall ((a Int)) (! (=> %s (= (select %s a) (select %s a))) :pattern ((select %s a))))",
+			vc.addAxiomArr(k, nw, old, fmt.Sprintf("(forall ((a Int)) (! (=> %s (= (select %s a) (select %s a))) :pattern ((select %s a))))",
 				and(lt("a", wm), not(inside("a"))), nw, old, nw), func(idx string) (string, []string) {
 				return imp(and(lt(idx, wm), not(inside(idx))), eq(sel(nw, idx), sel(old, idx))), nil
 			})
